@@ -3,6 +3,7 @@ import CashewsVerif.Lemmas.TxSchedOwn
 import CashewsVerif.Lemmas.TxSchedCheck
 import CashewsVerif.Lemmas.TxSchedPhase
 import CashewsVerif.Lemmas.TxSchedSeg
+import CashewsVerif.Lemmas.TxSchedNest
 /-
 C05 — concurrent transactions commit exactly their own writes; no lost increments.
 
@@ -63,7 +64,9 @@ theorem step_frame (w : World) (tid i : Nat) (h : i ≠ tid) : (w.runTask tid).t
   runTask_tasks_ne w tid h
 
 /-- **Own writes only.**  Under every schedule (cancellations included), for every task `i` that is a transaction
-block (context-manager or decorator form — the form is not looked at by any rule —, nested blocks inside, explicit
+block (context-manager form on a context object of its own, context-manager form on ONE context object shared by all the tasks
+and entered by several of them at once, or decorator form — the form is not looked at by any rule: after the repairs of D12 and
+D45 nothing a block remembers is shared between tasks through the object —, nested blocks inside, explicit
 `tx.commit()` / `tx.rollback()` calls inside).  `specBody` is the body's sequential meaning, a fold that knows nothing of
 locks, schedules or other tasks: a body is a sequence of segments separated by its explicit commits / rollbacks;
 `s.done` = the commits of the explicitly committed segments, `commitMuts s` = the commit of the segment open at the end.
@@ -156,6 +159,31 @@ theorem interrupted_block_applies_nothing (store : Store) (ts : List Task) (hf :
   | cancelled =>
     obtain ⟨p, rest, s, hp, hs, hm, hci⟩ := h.2.2.1 (Or.inr hpc)
     exact key p _ s hp hs hm hci
+
+/-- **Nested blocks are flat — also an inner block that FAILS.**  A body may contain nested blocks (`nestIn f … nestOut h`: a nested
+`async with cache.transaction()` or a call of a decorated function from inside the transaction), and an inner block may be left
+by an exception of any kind that the enclosing body catches right outside it (`h = some e`) before going on.  Under every
+schedule, if the caller of task `i` got a normal return with results `rs`, then these results and the store mutations made by
+the steps of `i` are exactly those of the body with every nested block inlined (`flatten`: the block markers erased, whichever
+way each inner block was left): the commits of the explicitly committed segments and then the commit of EVERYTHING buffered in
+the open segment — the writes before the failed inner block, the writes the inner block made before it raised, and the writes
+after it.  The failure of an inner block does not mark the transaction in any way.  (Seeded change C05-10 made a failed inner
+block mark the transaction rollback-only: the outer body finished normally and nothing was committed.) -/
+theorem caught_inner_failure_commits_everything (store : Store) (ts : List Task) (hf : FreshTasks ts) (sched : List Act) (i : Nat)
+    (htx : ((World.init store ts).tasks i).isTx = true) :
+    let w := (World.init store ts).run sched
+    let p0 := ((World.init store ts).tasks i).prog
+    ∀ rs, (w.tasks i).pc = .finished (.returned rs) →
+      ∃ s, specBody (flatten p0) (w.tasks i).reads {} = .normal s [] ∧ rs = s.results ∧ mineOf w i = s.done ++ commitMuts s ∧
+        (w.tasks i).cinc = s.cinc ++ s.pend := by
+  intro w p0 rs hpc
+  obtain ⟨s, hs, h⟩ := (own_writes_only store ts hf sched i htx).1 rs hpc
+  exact ⟨s, by rw [← specBody_flatten]; exact hs, h⟩
+
+/-- the sequential meaning of a body does not see the markers of nested blocks at all, whatever the reads and the state: the
+same holds for the bodies of the other clauses of `own_writes_only` (raised, `LockedError`, cancelled) -/
+theorem nested_blocks_are_flat (p : List Cmd) (rd : List (Option Int)) (s : BodySt) :
+    specBody p rd s = specBody (flatten p) rd s := specBody_flatten p rd s
 
 /-- **A cancelled task releases everything**: a task is cancelled (`Act.cancel`) while it is suspended inside its
 body; in the state right after, nothing is buffered any more, it believes to hold no lock beyond those it is about to
@@ -473,7 +501,7 @@ example : ((World.init (fun _ => none) exSetx).run
 /-- a task outside any transaction next to a transaction: its `set` is in the store in the very step, while the
 transaction's own write of the same key waits for the commit -/
 def exMixed : List Task :=
-  [{ isTx := true, mode := .locked, timeout := 40, form := .ctx, prog := [.set 1 5, .nestIn .dec, .incr 0 1, .nestOut, .raise ⟨false, false⟩] },
+  [{ isTx := true, mode := .locked, timeout := 40, form := .ctx, prog := [.set 1 5, .nestIn .dec, .incr 0 1, .nestOut none, .raise ⟨false, false⟩] },
    { isTx := false, mode := .fast, timeout := 0, form := .ctx, prog := [.set 1 8, .get 1] }]
 
 example : ((World.init (fun _ => none) exMixed).run [.run 0, .run 0, .run 1, .run 1]).store 1 = some 8 := by decide
@@ -563,6 +591,44 @@ example : exFalsyEnd ((World.init exStore1 (exFalsy .fast false)).run [.run 0, .
     (.finished (.raised ⟨false, true⟩), [], [], some 3, none, .finished (.returned [some 3])) := by decide
 example : exFalsyEnd ((World.init exStore1 (exFalsy .fast true)).run [.run 0, .run 0, .run 1, .run 1, .run 1]) =
     (.finished (.raised ⟨true, true⟩), [], [], some 3, none, .finished (.returned [some 3])) := by decide
+
+/-- **an inner block that fails, caught by the outer body** (the shape of seeded change C05-10): task 0 writes key 1 and increments
+the counter, opens a nested block that writes key 2 and raises — the exception is caught right outside the inner block —, then
+increments again and writes key 3, and returns.  Everything is committed, the inner block's write included; the concurrent
+decorated call (refused the lock meanwhile) commits on top: 1 + 1 + 1 + 4 -/
+def exCaught (m : Mode) (f : Form) : List Task :=
+  [{ isTx := true, mode := m, timeout := 40, form := .ctx,
+     prog := [.set 1 5, .incr 0 1, .nestIn f, .set 2 7, .nestOut (some ⟨false, false⟩), .incr 0 1, .set 3 9] },
+   { isTx := true, mode := m, timeout := 40, form := .dec, prog := [.incr 0 4] }]
+
+def exCaughtSched : List Act :=
+  [.run 0, .run 0, .run 0, .run 0, .run 1, .run 1, .run 0, .run 0, .run 0, .run 0, .run 0, .run 0, .run 0,
+   .adv 4, .run 1, .run 1, .run 1, .run 1]
+
+example : flatten (exCaught .locked .dec)[0].prog = [.set 1 5, .incr 0 1, .set 2 7, .incr 0 1, .set 3 9] := by decide
+example : WithinTimeout (World.init exStore1 (exCaught .locked .ctx)) exCaughtSched :=
+  withinTimeout_of_check _ _ (by intro t ht; simp [exCaught] at ht; rcases ht with rfl | rfl <;> constructor <;> rfl) _ (by decide)
+example : (((World.init exStore1 (exCaught .locked .ctx)).run (exCaughtSched.take 6)).tasks 1).pc = .lockSleep 0 9 4 := by decide
+example : (fun w : World => ((w.tasks 0).pc, mineOf w 0, w.store 0, w.store 2, (w.tasks 1).pc))
+    ((World.init exStore1 (exCaught .locked .ctx)).run exCaughtSched) =
+    (.finished (.returned [some 2, some 3]), [.setMany [(1, 5), (2, 7), (0, 3), (3, 9)]], some 7, some 7,
+     .finished (.returned [some 7])) := by decide
+example : (fun w : World => ((w.tasks 0).pc, mineOf w 0, w.store 0, w.store 2, (w.tasks 1).pc))
+    ((World.init exStore1 (exCaught .locked .dec)).run exCaughtSched) =
+    (.finished (.returned [some 2, some 3]), [.setMany [(1, 5), (2, 7), (0, 3), (3, 9)]], some 7, some 7,
+     .finished (.returned [some 7])) := by decide
+
+/-- **one shared context object** (`T = cache.transaction(m)` at module level, `async with T:` in two tasks at once; defect D45 kept
+the block's state on the object): each task runs its own transaction — the raising one applies nothing, the other one commits
+its own writes; task 0 re-enters the object nested in itself -/
+def exShared (m : Mode) : List Task :=
+  [{ isTx := true, mode := m, timeout := 40, form := .obj, prog := [.set 1 5, .nestIn .obj, .incr 0 1, .nestOut none] },
+   { isTx := true, mode := m, timeout := 40, form := .obj, prog := [.incr 0 2, .set 2 6, .raise ⟨false, false⟩] }]
+
+example : (fun w : World => ((w.tasks 0).pc, mineOf w 0, (w.tasks 1).pc, mineOf w 1, w.store 0, w.store 2))
+    ((World.init exStore1 (exShared .locked)).run
+      [.run 0, .run 1, .run 1, .run 1, .run 0, .run 0, .run 1, .run 1, .run 1, .adv 4, .run 0, .run 0, .run 0, .run 0, .run 0]) =
+    (.finished (.returned [some 2]), [.setMany [(1, 5), (0, 2)]], .finished (.raised ⟨false, false⟩), [], some 2, none) := by decide
 
 /-- **explicit `tx.commit()` in the middle of a body**: task 0 increments, commits, increments again; after the commit it
 holds no lock, so task 1 gets the counter's lock in between and task 0's second `incr` has to wait for it -/
